@@ -360,7 +360,7 @@ func c17Disruption(c *Check) {
 			jvr := p.Method("quorum", "JointConfig", "VoteResult")
 			okQ := false
 			for _, ret := range returnsOf(qfi) {
-				v := qfi.Sym(ret.Results[0])
+				v := qfi.RetSym(ret, 0)
 				if v.K == KBin && v.Name == "==" {
 					for _, a := range v.Args {
 						if a.K == KCall && a.Fn == jvr {
